@@ -167,6 +167,10 @@ def unpack(chk):
               'C15-R2', P9, '_unpack_pack9', 'one loop iteration per record, in stream order', unparse(lp.iter),
               f'record loop is {unparse(lp.iter)}', node=lp)
 
+    from ..core.srcmodel import early_exits
+    ex = early_exits(lp)
+    chk.check(not ex, 'C15-R2', P9, '_unpack_pack9', 'no record is skipped: no continue/break/return in the record loop', '',
+              f'{type(ex[0]).__name__.lower() if ex else ""} at line {ex[0].lineno if ex else 0}: a record can leave the loop before it is decoded', node=ex[0] if ex else lp, nontrivial=False)
     # ---- formulas -------------------------------------------------------
     mode = {'ctx': 'H'}
 
